@@ -60,6 +60,11 @@ def main():
     def snapshot():
         return [[getattr(c, "a%d" % a) for a in range(nattr)] for c in state["comps"]]
 
+    timed = bool(case.get("timed"))
+    spend = {int(k): v for k, v in case.get("spend", {}).items()}
+    jitter = case.get("jitter") or []
+    period_us = int(case.get("period_us", 20000))
+
     def begin(entry):
         """common prologue of every scripted callback; returns k"""
         k = state["k"]
@@ -68,6 +73,10 @@ def main():
             log.append(entry)
         for (ci, a, v) in writes.get(k, []):
             setattr(state["comps"][ci], "a%d" % a, v)
+        us = spend.get(k)
+        if us:
+            # the callback takes simulated time: the FPGA clock moves while the loop thread runs
+            wsim.stepTimingAsync((us + 0.5) / 1e6)
         return k
 
     def cb(site):
@@ -185,6 +194,7 @@ def main():
             raise fault(k)
 
     rns = {
+        "control_loop_wait_time": period_us / 1e6,
         "createObjects": lambda self: setattr(self, "peer", Shared()),
         "use_teleop_in_autonomous": bool(case["teleop_in_auto"]),
         "robotPeriodic": robotPeriodic,
@@ -235,9 +245,44 @@ def main():
     sem = threading.Semaphore(0)
     _orig_wait = hal.waitForNotifierAlarm
 
+    # every NotifierDelay the loops create: creation time, the alarms it programs, its waits
+    nds = []
+    nd_handles = []
+
+    def fpga_now():
+        v = hal.getFPGATime()
+        return int(v[0]) if isinstance(v, tuple) else int(v)
+
+    def nd_of(handle):
+        for i in range(len(nd_handles) - 1, -1, -1):
+            if nd_handles[i] is handle or nd_handles[i] == handle:
+                return nds[i]
+        return None
+    _orig_init = hal.initializeNotifier
+
+    def _init(*a):
+        r = _orig_init(*a)
+        nd_handles.append(r[0] if isinstance(r, tuple) else r)
+        nds.append({"t0": fpga_now(), "alarms": [], "waits": []})
+        return r
+    hal.initializeNotifier = _init
+    _orig_update = hal.updateNotifierAlarm
+
+    def _update(handle, t):
+        nd = nd_of(handle)
+        if nd is not None and state["logging"]:
+            nd["alarms"].append(int(t))
+        return _orig_update(handle, t)
+    hal.updateNotifierAlarm = _update
+
     def _wait(handle):
+        nd = nd_of(handle)
+        c = fpga_now()
         sem.release()
-        return _orig_wait(handle)
+        r = _orig_wait(handle)
+        if nd is not None and state["logging"]:
+            nd["waits"].append([c, fpga_now()])
+        return r
     hal.waitForNotifierAlarm = _wait
     _orig_observe = hal.observeUserProgramStarting
 
@@ -289,9 +334,19 @@ def main():
         os._exit(0)
     hal.simulation.waitForProgramStart()
 
-    def fpga_now():
-        v = hal.getFPGATime()
-        return int(v[0]) if isinstance(v, tuple) else int(v)
+    def step_tick(ti):
+        if not timed:
+            wsim.stepTimingAsync(P)
+            return
+        # up to the alarm the loop is waiting for, plus the scripted lateness of this wake-up
+        target = None
+        for nd in reversed(nds):
+            if nd["alarms"]:
+                target = nd["alarms"][-1]
+                break
+        late = jitter[ti] if ti < len(jitter) else 0
+        dt = (target + late - fpga_now()) if target is not None else period_us
+        wsim.stepTimingAsync((max(dt, 1) + 0.5) / 1e6)
 
     def wait_idle():
         """until the robot thread has finished its pass and is entering NotifierDelay.wait() (or died)"""
@@ -307,12 +362,12 @@ def main():
     hung = not wait_idle()
     marks.append(len(log))
     ended = False
-    for t in ticks[1:]:
+    for ti, t in enumerate(ticks[1:], 1):
         if exc or not th.is_alive():
             break
         if t == "end":
             robot.endCompetition()
-            wsim.stepTimingAsync(P)
+            step_tick(ti)
             th.join(5.0)
             ended = True
             marks.append(len(log))
@@ -325,7 +380,7 @@ def main():
             marks.append(len(log))
             continue
         set_word(t)
-        wsim.stepTimingAsync(P)
+        step_tick(ti)
         if not wait_idle():
             hung = True
             break
@@ -336,11 +391,11 @@ def main():
         raises.clear()
         robot.endCompetition()
         try:
-            wsim.stepTimingAsync(P)
+            wsim.stepTimingAsync(max(P, 2 * period_us / 1e6))
         except Exception:
             pass
         th.join(5.0)
-    out = {"log": log, "marks": marks, "crashed": crashed, "exc": exc[:1], "alive": th.is_alive(), "hung": hung}
+    out = {"log": log, "marks": marks, "crashed": crashed, "exc": exc[:1], "alive": th.is_alive(), "hung": hung, "nds": nds}
     sys.stdout.write("\n" + json.dumps(out) + "\n")
     sys.stdout.flush()
     os._exit(0)
